@@ -77,7 +77,15 @@ func MavenDepTypeToDependency(typ dep.Type) (maven.Dependency, string, error) {
 	if e, ok := typ.GetAttr(dep.MavenExclusions); ok {
 		exs := strings.Split(e, "|")
 		for _, ex := range exs {
+			if ex == "" {
+				// MavenDepType writes an empty list when every
+				// exclusion had to be skipped.
+				continue
+			}
 			i := strings.Index(ex, ":")
+			if i < 0 {
+				return maven.Dependency{}, "", fmt.Errorf("invalid Maven exclusion %q in dep.Type", ex)
+			}
 			result.Exclusions = append(result.Exclusions, maven.Exclusion{
 				GroupID:    maven.String(ex[:i]),
 				ArtifactID: maven.String(ex[i+1:]),
